@@ -164,17 +164,22 @@ def to_text(prog):
     return tokens_to_text(prog_tokens(prog))
 
 
-def tokens_to_text(toks, layout=None):
+def tokens_to_text(toks, layout=None, offsets=None):
     """Render a token stream.  `layout` is None (canonical) or a callable
     layout(kind, position) -> str giving the text to emit at each separator/padding position
     and between ordinary tokens (kind "gap")."""
     parts = []
     prev_tok = False
+    pos = 0
     for i, (kind, text) in enumerate(toks):
         if kind == "tok":
             if prev_tok:
                 parts.append(" " if layout is None else layout("gap", i))
+                pos += len(parts[-1])
+            if offsets is not None:
+                offsets.append(pos)
             parts.append(text)
+            pos += len(text)
             prev_tok = True
         else:
             if layout is None:
@@ -184,6 +189,7 @@ def tokens_to_text(toks, layout=None):
             else:
                 s = layout(kind, i)
             parts.append(s)
+            pos += len(s)
             prev_tok = False
     return "".join(parts)
 
